@@ -33,7 +33,7 @@ def one(seed):
 with ThreadPoolExecutor(max_workers=8) as ex:
     results = dict(ex.map(one, seeds))
 shutil.rmtree(base, ignore_errors=True)
-json.dump(results, open("/tmp/seed_matrix.json", "w"), indent=1)
+json.dump(results, open(os.environ.get("MATRIX_OUT", "/tmp/seed_matrix.json"), "w"), indent=1)
 for name in sorted(results):
     r = results[name]
     if "_apply" in r:
